@@ -219,12 +219,17 @@ def _multi_part_terminals(text: str) -> List[str]:
             if len(items) >= 2:
                 out.append("%s: %s" % (name, body.strip()))
                 break
+    # lark's common.SIGNED_NUMBER / SIGNED_INT / SIGNED_FLOAT are ["+"|"-"] followed by the number:
+    # a sign glued to its digits inside one terminal
+    for m in re.finditer(r"^\s*%import\s+common\.(SIGNED_[A-Z]+)(?:\s*->\s*([A-Z_][A-Z_0-9]*))?\s*$", text, re.M):
+        out.append("%s (= common.%s: [\"+\"|\"-\"] followed by the number)" % (m.group(2) or m.group(1), m.group(1)))
     return out
 
 
 @fixture("C17/L13 multi-part terminal matcher")
 def _fx_l13() -> bool:
     return bool(_multi_part_terminals('  COEFF: ["-"] NUMBER\n')) and \
+        bool(_multi_part_terminals('  %import common.SIGNED_NUMBER -> COEFF\n')) and \
         not _multi_part_terminals('  NUMBER: /[0-9]+/\n  ?num: NUMBER -> pos\n     | "-" NUMBER -> neg\n')
 
 
@@ -726,7 +731,8 @@ def _check_sign(db: DB, rep: Report, f) -> None:
     loops = [n for n in walk_no_nested(fn) if isinstance(n, ast.For) and isinstance(n.target, ast.Name)
              and any(isinstance(c, ast.Constant) and c.value == "itimes" for c in ast.walk(n.iter))]
     if len(loops) != 1:
-        raise AnalysisError("EquationParser.parse: the loop over find_data('itimes') was not found")
+        rep.undecided("L5", db.loc(fn), f.short, "EquationParser.parse: the loop over find_data('itimes') was not found")
+        return
     lp = loops[0]
     child = "%s.children[0]" % lp.target.id         # X
     out: List = []
